@@ -510,6 +510,28 @@ def eval_lookup(case: dict, tally: 'Tally') -> dict:
         else:
             tally.count('find_fqn_expected_empty')
 
+    # one calling-scope object used for a whole walk: a lookup, the scope grown in place by the
+    # next identifier (`scope += ...`), the next lookup - down the path of every declaration
+    walked = 0
+    for _kind, path, _tag in table[:6]:
+        walker = scoping.NamespaceIds(items=[])
+        name = path[-1:]
+        for level in range(len(path)):
+            expected = sorted(d[2] for d in M.spec_lookup(table, path[:level], name))
+            facts = {'name': name, 'scope': path[:level], 'walked_in_place': True}
+            one = narrowed(queries=[[name, path[:level]]])
+            tally.doing = ('find_fqn', facts, one)
+            try:
+                found = ast_view.find_fqn(fct, scoping.NamespaceIds(items=list(name)), walker)
+            except Exception as exc:  # pylint: disable=broad-except
+                tally.note(f'find_fqn:raised:{type(exc).__name__}',
+                           dict(facts, **common.classify_exception(exc)), one)
+                break
+            judge_found('find_fqn', found.items, expected, by_id, table, facts, tally, one)
+            walked += 1
+            walker += scoping.NamespaceIds(items=[path[level]])
+    tally.count('lookups_from_a_scope_object_grown_in_place', walked)
+
     for suffix in suffixes:
         one = narrowed(suffixes=[suffix])
         if not suffix:
